@@ -155,23 +155,25 @@ var chanProtocol = map[string]tabEntry{
 	"pebbles.(*subscriptionEntry).Listen | subscriptionEntry.closeCh | select-recv":                                             {1, "event loop: stop request"},
 	"pebbles.(*subscriptionEntry).Listen$1 | subscriptionEntry.queryerCloseCh | send":                                           {1, "tells the upstream closer goroutine to close the upstream connection (blocking rendezvous)"},
 	"pebbles.(*subscriptionEntry).Listen$1 | subscriptionEntry.queryerCloseCh | close":                                          {1, "closed by its only sender after its only send"},
-	"pebbles.(*subscriptionEntry).Listen$1 | subscriptionEntry.closeCh | close":                                                 {1, "see ownership obligation (known finding F22)"},
-	"pebbles.(*subscriptionEntry).Listen$1 | subscriptionEntry.respCh | close":                                                  {1, "closed by the receiver; the upstream reader's last send is protected by recover (see ownership table)"},
+	"pebbles.(*subscriptionEntry).Listen$1 | subscriptionEntry.closeCh | close":                                                 {1, "closed by the receiver; a stop request blocked in its send ends under Close's recover (repair 24353ad; R8a.own computes it)"},
+	"pebbles.(*subscriptionEntry).Listen$1 | subscriptionEntry.respCh | close":                                                  {1, "closed by the receiver; every send of the upstream reader is under a recover of its own goroutine (repair 29cb2f6; R8a.own computes it)"},
 	"pebbles.sendHeartbeat | Ticker.C | select-recv":                                                                            {1, "keep-alive tick"},
 	"pebbles.sendHeartbeat | result of context.Context.Done | select-recv":                                                      {1, "cancelled when the handler returns"},
 	"queryer.(*MultiOpQueryer).Subscribe | local chan error of queryer.(*MultiOpQueryer).Subscribe | make":                      {1, "errCh: result of the upstream handshake"},
 	"queryer.(*MultiOpQueryer).Subscribe | local chan error of queryer.(*MultiOpQueryer).Subscribe | close":                     {1, "deferred; after the single receive"},
 	"queryer.(*MultiOpQueryer).Subscribe | local chan error of queryer.(*MultiOpQueryer).Subscribe | recv":                      {1, "waits for the handshake result"},
-	"queryer.(*MultiOpQueryer).Subscribe$1 | subscriptionEntry.queryerCloseCh | recv":                                           {1, "upstream closer: unconditional blocking receive — Listen's teardown send depends on it"},
+	"queryer.(*MultiOpQueryer).Subscribe$1 | subscriptionEntry.queryerCloseCh | select-recv":                                    {1, "upstream closer: waits for Listen's teardown send — or for the handshake to fail, in which case no Listen exists and nothing would ever be sent (repair 75a29bd)"},
+	"queryer.(*MultiOpQueryer).Subscribe$1 | local chan struct{} of queryer.(*MultiOpQueryer).Subscribe | select-recv":          {1, "handshake failed: closed by Subscribe on its error return"},
+	"queryer.(*MultiOpQueryer).Subscribe | local chan struct{} of queryer.(*MultiOpQueryer).Subscribe | make":                   {1, "failed: signals the closer that nobody is going to listen"},
+	"queryer.(*MultiOpQueryer).Subscribe | local chan struct{} of queryer.(*MultiOpQueryer).Subscribe | close":                  {1, "on the error return only, never sent on"},
 	"queryer.(*MultiOpQueryer).Subscribe$2 | local chan error of queryer.(*MultiOpQueryer).Subscribe | send":                    {5, "exactly one handshake result per run (four failures, one success)"},
-	"queryer.(*MultiOpQueryer).Subscribe$2 | subscriptionEntry.respCh | send":                                                   {2, "events and upstream error payloads, in arrival order"},
-	"queryer.(*MultiOpQueryer).Subscribe$2$1 | subscriptionEntry.respCh | send":                                                 {1, "nil = upstream finished; inside a deferred function with nested recover"},
+	"queryer.(*MultiOpQueryer).Subscribe$2 | subscriptionEntry.respCh | send":                                                   {5, "events, upstream error payloads (list form, single-object form) and the reason why the stream ends (connection lost, undecodable frame), in arrival order"},
+	"queryer.(*MultiOpQueryer).Subscribe$2$1 | subscriptionEntry.respCh | send":                                                 {1, "nil = upstream finished; sent only when the handshake had succeeded (somebody listens); inside a deferred function with nested recover"},
 }
 
 // chanOwnership: channels whose closer is not their only sender — reason or finding.
 var chanOwnership = map[string]string{
 	"local chan error of queryer.(*MultiOpQueryer).Subscribe": "the reader goroutine sends exactly one value (no send in a cycle, none reachable from another); Subscribe receives it before its deferred close runs",
-	"subscriptionEntry.respCh":                                "closed by the receiver (Listen) after it told the upstream side to close; a late send by the upstream reader panics inside the goroutine whose deferred function re-panics on `resCh <- nil` and recovers, which also abandons the first panic (checked by experiment at design time); frame loss only at teardown",
 }
 
 func ruleChannels(r *Run) {
@@ -241,6 +243,22 @@ func ruleChannels(r *Run) {
 				r.OK(rule+".own", closer, "close "+ch, site, "closed by its only sender")
 				continue
 			}
+			// every foreign send sits under a recover of its own goroutine: a send that loses the
+			// race with the close ends that goroutine, not the process
+			unprotected := ""
+			for _, op := range ops {
+				if op.ch != ch || (op.kind != "send" && op.kind != "select-send") || fnName(op.fn) == closer {
+					continue
+				}
+				if !recoverProtected(op.ins) {
+					unprotected = r.P.pos(op.ins.Pos())
+					break
+				}
+			}
+			if unprotected == "" {
+				r.OK(rule+".own", closer, "close "+ch, site, "closed by "+closer+" while "+strings.Join(others, ", ")+" may still send; every such send is dominated by the registration of a deferred function of its own goroutine that calls recover() directly: a late send ends the sender quietly")
+				continue
+			}
 			if reason, ok := chanOwnership[ch]; ok {
 				if ch == "local chan error of queryer.(*MultiOpQueryer).Subscribe" && !r.singleShotSends(ch, ops) {
 					r.Bad(rule+".own", closer, "close "+ch, site, "the handshake channel is closed by Subscribe while the reader goroutine can send on it more than once")
@@ -249,10 +267,35 @@ func ruleChannels(r *Run) {
 				r.Tabled(rule+".own", closer, "close "+ch, site, "chanOwnership", reason)
 				continue
 			}
-			r.Bad(rule+".own", closer, "close "+ch, site, "channel is closed by "+closer+" while "+strings.Join(others, ", ")+" may still send on it from another goroutine: `send on closed channel` panics and, outside a recover, ends the process")
+			r.Bad(rule+".own", closer, "close "+ch, site, "channel is closed by "+closer+" while "+strings.Join(others, ", ")+" may still send on it from another goroutine (e.g. the send at "+unprotected+", which no recover of its goroutine covers): `send on closed channel` panics and, outside a recover, ends the process")
 		}
 	}
 	r.AtLeast(rule, "channel operations outside AsyncMapReduce", len(ops), 20)
+}
+
+// recoverProtected: the instruction is dominated by a `defer func(){ … recover() … }()` of its
+// own function, where recover is called directly by the deferred literal (a recover called
+// one level deeper would not stop the panic).
+func recoverProtected(ins ssa.Instruction) bool {
+	fn := ins.Parent()
+	for _, i2 := range allInstrs(fn) {
+		d, ok := i2.(*ssa.Defer)
+		if !ok || !instrDominates(d, ins) {
+			continue
+		}
+		lit := d.Call.StaticCallee() // a literal with or without captured variables
+		if lit == nil || lit.Blocks == nil || lit.Parent() != fn {
+			continue
+		}
+		for _, i3 := range allInstrs(lit) {
+			if c, ok := i3.(*ssa.Call); ok {
+				if b, ok := c.Call.Value.(*ssa.Builtin); ok && b.Name() == "recover" {
+					return true
+				}
+			}
+		}
+	}
+	return false
 }
 
 // singleShotSends: no send on ch lies in a cycle and none is reachable from another.
@@ -684,4 +727,91 @@ func ruleUpstreamForward(r *Run) {
 		}
 	}
 	r.AtLeast(rule, "data-frame cases in the upstream reader", n, 1)
+	// an upstream `error` / `connection_error` frame is an upstream error: it has to be handed
+	// on (a send on the result channel) before the reader gives up
+	nErr := 0
+	for _, fn := range withClosures(sub) {
+		for _, ins := range allInstrs(fn) {
+			iff, ok := ins.(*ssa.If)
+			if !ok {
+				continue
+			}
+			bo, ok := iff.Cond.(*ssa.BinOp)
+			if !ok || bo.Op != token.EQL {
+				continue
+			}
+			which := ""
+			for _, v := range []ssa.Value{bo.X, bo.Y} {
+				if k, ok := v.(*ssa.Const); ok && k.Value != nil && (k.Value.ExactString() == `"error"` || k.Value.ExactString() == `"connection_error"`) {
+					which = k.Value.ExactString()
+				}
+			}
+			if which == "" {
+				continue
+			}
+			nErr++
+			okFwd, _ := mustPass(iff.Block().Succs[0], 0, func(i ssa.Instruction) bool {
+				_, isSend := i.(*ssa.Send)
+				return isSend
+			})
+			r.Check(okFwd, "R12b.err", fnName(fn), "upstream "+which+" frame forwarded", r.P.pos(iff.Cond.Pos()),
+				"the frame's payload is sent on the result channel before the reader returns",
+				"an upstream frame of type "+which+" ends the reader without anything being sent on the result channel: the subscriber is told nothing — no error, no completion — and its connection stays open")
+		}
+	}
+	r.AtLeast("R12b.err", "upstream error-frame cases in the reader", nErr, 1)
+}
+
+// ruleSubscriptionRegistry (R8e): an entry is put into the per-connection subscription
+// dictionary only after whatever was registered under that id has been stopped (a dominating
+// Clean of the same key) or shown absent (the failing side of a comma-ok lookup of the same
+// key). Overwriting a live entry makes it unreachable for stop, terminate and the teardown's
+// CleanAll: its Listen goroutine, both upstream goroutines and the upstream connection outlive
+// the client connection.
+func ruleSubscriptionRegistry(r *Run) {
+	const rule = "R8e"
+	n := 0
+	for _, fn := range r.P.Funcs {
+		for _, ins := range allInstrs(fn) {
+			mu, ok := ins.(*ssa.MapUpdate)
+			if !ok || namedOf(mu.Map.Type()) != modPath+".subscriptionDict" {
+				continue
+			}
+			if isNilConst(unwrap(mu.Value)) {
+				continue
+			}
+			n++
+			good := false
+			for _, i2 := range allInstrs(fn) {
+				switch x := i2.(type) {
+				case ssa.CallInstruction:
+					c := x.Common()
+					if strings.HasSuffix(calleeName(c), "subscriptionDict).Clean") && len(c.Args) == 2 && sameValue(unwrap(c.Args[1]), unwrap(mu.Key)) && instrDominates(x, mu) {
+						good = true
+					}
+				case *ssa.Lookup:
+					if x.CommaOk && namedOf(x.X.Type()) == modPath+".subscriptionDict" && sameValue(unwrap(x.Index), unwrap(mu.Key)) {
+						for _, ref := range *x.Referrers() {
+							ex, ok := ref.(*ssa.Extract)
+							if !ok || ex.Index != 1 {
+								continue
+							}
+							for _, r2 := range *ex.Referrers() {
+								if iff, ok := r2.(*ssa.If); ok {
+									absent := iff.Block().Succs[1]
+									if len(absent.Preds) == 1 && (absent == mu.Block() || absent.Dominates(mu.Block())) {
+										good = true
+									}
+								}
+							}
+						}
+					}
+				}
+			}
+			r.Check(good, rule, fnName(fn), "register subscription under its id", r.P.pos(mu.Pos()),
+				"the previous entry with this id is stopped first (or the id is shown to be free)",
+				"a subscription is stored under an id that may already be in use, without stopping the entry it replaces: the replaced subscription can no longer be stopped by the client, by connection_terminate or by the teardown's CleanAll — its goroutines and its upstream connection stay alive after the client has gone")
+		}
+	}
+	r.AtLeast(rule, "insertions into the subscription dictionary", n, 1)
 }
